@@ -101,7 +101,9 @@ theorem decDerive_iff (bo : ByteOrder) (buf : List UInt8) (nfds : Option Nat) (c
     (hc : ∀ t ∈ cases, variantTypeOk t = true) (off lim : Nat) (i : Nat) (v : Val) (o' : Nat) :
     decDerive bo buf nfds cases off lim = some (i, v, o') ↔
       ∃ t, findCase cases (sigBytes t) = some (i, t) ∧
-        dec bo buf nfds (maxDepth + 1) .variant off lim = some (.variant t v, o') := by
+        dec bo buf nfds maxDepth .variant off lim = some (.variant t v, o') := by
+  have hmd : maxDepth = (maxDepth - 1) + 1 := by decide
+  rw [hmd]
   constructor
   · intro h
     unfold decDerive at h
@@ -117,7 +119,7 @@ theorem decDerive_iff (bo : ByteOrder) (buf : List UInt8) (nfds : Option Nat) (c
         obtain ⟨i', t⟩ := r
         rw [hf] at h
         simp only [] at h
-        cases hd : dec bo buf nfds maxDepth t o lim with
+        cases hd : dec bo buf nfds (maxDepth - 1) t o lim with
         | none => rw [hd] at h; simp at h
         | some r =>
           obtain ⟨v', o''⟩ := r
@@ -155,7 +157,7 @@ theorem decCatchall_unknown_iff (bo : ByteOrder) (buf : List UInt8) (nfds : Opti
         obtain ⟨i', t'⟩ := r
         rw [hf] at h
         simp only [] at h
-        cases hd : dec bo buf nfds maxDepth t' o lim with
+        cases hd : dec bo buf nfds (maxDepth - 1) t' o lim with
         | none => rw [hd] at h; simp at h
         | some r => rw [hd] at h; simp at h
       | none =>
